@@ -122,7 +122,7 @@ func genTFCfg(rc *RunCtx) TFCfg {
 	c.Plant = r.Pick(0, 0, 1, 3)
 	c.DiskFaults = r.Pick(0, 0, 0, 40, 200)
 	c.YieldProb = uint32(r.Pick(0, 1024, 4096))
-	c.Topics = r.Pick(1, 1, 2)
+	c.Topics = r.Pick(1, 1, 2, 3) // 3: the second topic is the ephemeral namesake of the first (logs, logs#ephemeral)
 	return c
 }
 
@@ -333,7 +333,7 @@ func (w *tfWorld) argv(ip net.IP) []string {
 		"--log-level=info",
 		"--consumer-opt=local_addr," + ip.String() + ":0", "--consumer-opt=dial_timeout,1s"}
 	if c.Topics > 1 {
-		a = append(a, "--topic=audit")
+		a = append(a, "--topic="+w.topic2())
 	}
 	if c.Gzip {
 		a = append(a, "--gzip")
@@ -344,13 +344,20 @@ func (w *tfWorld) argv(ip net.IP) []string {
 	return a
 }
 
+func (w *tfWorld) topic2() string {
+	if w.cfg.Topics == 3 {
+		return "logs#ephemeral"
+	}
+	return "audit"
+}
+
 // options: what main() derives from that command line (used to compute file names to plant).
 func (w *tfWorld) options() *Options {
 	c := w.cfg
 	opts := NewOptions()
 	opts.Topics = []string{"logs"}
 	if c.Topics > 1 {
-		opts.Topics = append(opts.Topics, "audit")
+		opts.Topics = append(opts.Topics, w.topic2())
 	}
 	opts.OutputDir, opts.WorkDir = w.out, w.work
 	opts.DatetimeFormat = c.DateFmt
@@ -775,7 +782,7 @@ func (w *tfWorld) opPub(op Op) {
 	}
 	topic := "logs"
 	if w.cfg.Topics > 1 && op.B == 1 {
-		topic = "audit"
+		topic = w.topic2()
 	}
 	r := NewPRNG(w.rc.Seed*77 + uint64(op.Uid))
 	for i := int64(0); i < op.A; i++ {
@@ -822,8 +829,8 @@ func (w *tfWorld) finalAccounting() {
 	missing := 0
 	var first *tfMsg
 	for _, m := range w.msgs {
-		if !m.acked {
-			continue
+		if !m.acked || strings.HasSuffix(m.topic, "#ephemeral") {
+			continue // (an ephemeral topic and its backlog vanish whenever its consumer is away)
 		}
 		if _, ok := w.inFiles(m.body, false); !ok {
 			missing++
